@@ -246,8 +246,16 @@ int antispoof_ingress(struct __sk_buff *skb) {
 	/* Handle IPv4 */
 	if (h_proto == bpf_htons(ETH_P_IP)) {
 		struct iphdr *ip = l3;
-		if ((void *)(ip + 1) > data_end)
-			return TC_ACT_OK;
+		if ((void *)(ip + 1) > data_end) {
+			/* No readable source address: nothing to match against the
+			 * binding or the allowed ranges */
+			if (mode == ANTISPOOF_LOG_ONLY) {
+				update_stats(1, 0);
+				return TC_ACT_OK;
+			}
+			update_stats(0, 0);
+			return TC_ACT_SHOT;
+		}
 
 		__u32 src_ip = ip->saddr;
 		int allowed = 0;
@@ -282,8 +290,14 @@ int antispoof_ingress(struct __sk_buff *skb) {
 	/* Handle IPv6 */
 	if (h_proto == bpf_htons(ETH_P_IPV6)) {
 		struct ipv6hdr *ip6 = l3;
-		if ((void *)(ip6 + 1) > data_end)
-			return TC_ACT_OK;
+		if ((void *)(ip6 + 1) > data_end) {
+			if (mode == ANTISPOOF_LOG_ONLY) {
+				update_stats(1, 1);
+				return TC_ACT_OK;
+			}
+			update_stats(0, 1);
+			return TC_ACT_SHOT;
+		}
 
 		int allowed = 0;
 
